@@ -20,6 +20,7 @@ import MetricsVerif.Driver.Debugging
 import MetricsVerif.Driver.Allowlist
 import MetricsVerif.Driver.LocalRec
 import MetricsVerif.Driver.Atomics
+import MetricsVerif.Driver.StatsdAgg
 
 open MetricsVerif.Driver
 
@@ -89,6 +90,7 @@ def step (st : DState) (line : String) : DState × String :=
     | some (p, o) => ({ st with localrec := p }, o)
     | none => (st, "bad-op")
   | "atomics" :: args => (st, (Atomics.handle args).getD "bad-op")
+  | "agg" :: args => (st, (StatsdAgg.handle args).getD "bad-op")
   | _ => (st, "bad-op")
 
 partial def loop (h : IO.FS.Stream) (out : IO.FS.Stream) (st : DState) : IO Unit := do
